@@ -1085,7 +1085,9 @@ theorem greetLoop_spec : ∀ (fuel : Nat) (sc : Int) (fe : Bool) (s : St), s.scr
         · rename_i htp; simp only [sat_ret]; exact ⟨hq, Or.inr (by omega)⟩
     · simp only [sat_ret]; exact ⟨Quiet.refl s, Or.inl ⟨by trv, by trv⟩⟩
 
-theorem cstr_stGreetFail : ∃ t, cstr Gen.Qr.stGreetFail = letterZ :: t := exists_tail_of_head (by decide)
+/-- giving up on an unexpected greeting error either does not exist in the tree (the next MX is tried)
+or writes a `Z` report first -/
+theorem greetFail_ok : Gen.Qr.greetOtherNextMx = 1 ∨ (cstr Gen.Qr.stGreetFail).head? = some letterZ := by decide
 theorem cstr_stTlsLocal : ∃ t, cstr stTlsLocal = letterZ :: t := exists_tail_of_head (by decide)
 
 theorem tlsInit_spec (s : St) :
@@ -1150,11 +1152,17 @@ theorem connectMx_spec (helo : List Byte) : ∀ (fuel : Nat) (s : St), s.conns <
             · apply sat_bind' (quitmsg_spec s1) (fun _ h => ab hq1.1 h.1)
               intro _ s2 ⟨h1, _, _, h4, h5, h6, h7⟩
               exact cont s2 (hq1.1.trans h1) (h6.trans hq1.2.2.2.1) (h4.trans hq1.2.1)
-            · unfold shutdownAbort
-              simp only [sat_exit]
-              have hne : ¬ (Gen.Qr.stGreetFail = []) := by decide
-              rw [if_neg hne]
-              exact ab hq1.1 (Aborted.same_right (aborted_writeStatus s1 _ cstr_stGreetFail) (Same.of_eq rfl rfl rfl))
+            · split
+              · exact cont _ hq1.1 hq1.2.2.2.1 hq1.2.1
+              · rename_i hflag
+                rcases greetFail_ok with h | hz
+                · exact absurd h hflag
+                · unfold shutdownAbort
+                  simp only [sat_exit]
+                  have hne : ¬ (Gen.Qr.stGreetFail = []) := by
+                    intro h0; rw [h0] at hz; simp [cstr] at hz
+                  rw [if_neg hne]
+                  exact ab hq1.1 (Aborted.same_right (aborted_writeStatus s1 _ (exists_tail_of_head hz)) (Same.of_eq rfl rfl rfl))
       · rename_i hnn
         obtain ⟨_, hsock1, _⟩ := hpos1 (by omega)
         apply sat_bind' (greetLoop_spec _ sc false s1 (Nat.lt_succ_self _)) (fun _ h => ab hq1.1 h)
